@@ -330,6 +330,21 @@ def assemble(unit, mode="normal", mutant=None):
                 out.append(l)
                 linemap.append((origin, t.key))
     if mode == "canary":
+        # lemma canaries: a hand-written proof fn with a `requires` must have a satisfiable precondition
+        i = 0
+        while i < len(out):
+            m = re.match(r"\s*(?:pub\s+)?(?:broadcast\s+)?proof fn (\w+)", out[i])
+            if m and linemap[i][1] is None:
+                j, has_req = i, False
+                while j < len(out) and out[j].strip() != "{" and not out[j].rstrip().endswith("{}") and not out[j].rstrip().endswith(";"):
+                    if "requires" in out[j]:
+                        has_req = True
+                    j += 1
+                if j < len(out) and out[j].strip() == "{" and has_req:
+                    out.insert(j + 1, f"    assert(false); // [canary-lemma:{m.group(1)}]")
+                    linemap.insert(j + 1, ("canary", None))
+                i = j
+            i += 1
         # axiom consistency canary
         idx = max(i for i, l in enumerate(out) if l.strip().startswith("} // verus!") or l.strip() == "} // verus!")
         out.insert(idx, "proof fn __verif_axioms_consistent() ensures false {} // [canary-axioms]")
